@@ -69,10 +69,10 @@ class ProxyFuture(MapFuture):
         return self.__result.__div__(other)
 
     def __truediv__(self, other):
-        return self.__result.__truediv__(other)
+        return self.__result / other
 
     def __floordiv__(self, other):
-        return self.__result.__floordiv__(other)
+        return self.__result // other
 
     def __mod__(self, other):
         return self.__result % other
@@ -123,7 +123,7 @@ class ProxyFuture(MapFuture):
         return round(self.__result, *ndigits)
 
     def __trunc__(self):
-        return self.__result.__trunc__()
+        return math.trunc(self.__result)
 
     def __floor__(self):
         return math.floor(self.__result)
